@@ -58,6 +58,8 @@ def run(rep):
     rep.guard(c01.r2, rep, w)          # a handle kept outside the heap without a root (the class of a built-in error in the class store) dangles after the next collection
     import c12
     rep.guard(c12.h13, rep, w, 'C02')  # a hasher whose write() panics is a host panic for the first key that reaches it
+    rep.guard(p12, rep, w)
+    rep.guard(p13, rep, w)
 
 
 def const_usize(o):
@@ -956,3 +958,72 @@ def p10(rep, w):
                     'collection\'s current len() in this call: after the loop body shrinks the collection the interpreter panics (index out of bounds) instead of ending the loop', f.loc(sp_))
     if n < 1:
         raise Broken('C02', 'floor', 'P10: %d indexed reads in iterator next() functions' % n)
+
+
+def p12(rep, w, prop='C02'):
+    """numbers are f64 and NaN is a number a program can make: `a.partial_cmp(&b)` answers None for it, so unwrapping that answer (sorting,
+    min / max, a comparison helper) is a host panic on a value the program chose. Every use of partial_cmp on f64 in the crate handles the None."""
+    r = rep.rule('P12', 'no result of f64::partial_cmp is unwrapped', floor=0)
+    n = 0
+    for f in sorted(w.yarel.fns.values(), key=lambda x: x.path):
+        sites = [(bi, t) for bi, t in f.calls() if strip_generics(callee_name(t) or '').endswith('partial_cmp')]
+        if not sites:
+            continue
+        org = origins(f)
+        for bi, t in sites:
+            n += 1
+            bad = []
+            for bj, t2 in f.calls():
+                n2 = strip_generics(callee_name(t2) or '')
+                if n2.rsplit('::', 1)[-1] in ('unwrap', 'expect', 'unwrap_unchecked') and t2['args']:
+                    a = op_place(t2['args'][0])
+                    if a is not None and any(q[0][0] == 'call' and q[0][1] == bi for q in org.get(a['l'], ())):
+                        bad.append(n2.rsplit('::', 1)[-1])
+            r.check(not bad, '%s / partial_cmp result is not unwrapped' % f.path.replace('yarel::', ''),
+                    '%s unwraps the result of partial_cmp: comparing a NaN panics the host' % f.path, f.loc(t.get('sp')))
+    r.note('partial_cmp call sites: %d' % n)
+
+
+def p13(rep, w, prop='C02'):
+    """outside the compiler (whose casts C04 B4 bounds) the interpreter narrows no integer it cannot bound: a stack height, a count or a character
+    squeezed into a u8 / u16 wraps for the 256th local, the 65536th element, the first non-Latin letter. Census today: none; any new one has to
+    be bounded by the interval interpreter (a comparison on the way that the value passes only when it fits)."""
+    import c04_narrow as cn
+    r = rep.rule('P13', 'every narrowing integer cast outside the compiler has an operand that provably fits', floor=0)
+    c = w.yarel
+    WIDTH = {'u8': 8, 'i8': 8, 'u16': 16, 'i16': 16, 'u32': 32, 'i32': 32, 'char': 32, 'u64': 64, 'i64': 64, 'usize': 64, 'isize': 64}
+    n = 0
+    for f in sorted(c.fns.values(), key=lambda x: x.path):
+        if f.file.endswith(('compiler.rs', 'debug.rs')):
+            continue
+        sites = []
+        for bi in f.normal_blocks():
+            for si, s_ in enumerate(f.blocks[bi]['s']):
+                rr = s_.get('r', {})
+                if rr.get('rv') == 'cast' and 'IntToInt' in rr.get('ck', ''):
+                    tgt = c.tstr(rr['t'])
+                    pl = op_place(rr['o'])
+                    k = op_const(rr['o'])
+                    src = c.tstr(pl.get('t', f.local_ty(pl['l']))) if pl is not None else (c.tstr(k['t']) if k else '?')
+                    if src in WIDTH and tgt in WIDTH and WIDTH[tgt] < WIDTH[src] and k is None:
+                        sites.append((bi, si, src, tgt, s_))
+        if not sites:
+            continue
+        it = cn.Interp(w, f, {})
+        it.err = set()
+        saved = dict(cn.TYPE_RANGE)
+        cn.TYPE_RANGE.setdefault('char', (0, 0x10ffff))
+        try:
+            it.run()
+            for (bi, si, src, tgt, s_) in sites:
+                n += 1
+                st = it.transfer_prefix(bi, si)
+                iv = it.eval_op(st, s_['r']['o'])
+                lo, hi = cn.TYPE_RANGE.get(tgt, (0, 0))
+                r.check(iv[0] >= lo and iv[1] <= hi, '%s / %s as %s' % (f.path.replace('yarel::', ''), src, tgt),
+                        '%s narrows a %s to %s and the operand can be as large as %s: the value wraps (the 256th slot becomes slot 0, a letter beyond Latin-1 becomes an ASCII one)'
+                        % (f.path, src, tgt, 'unbounded' if iv[1] >= cn.INF else iv[1]), f.loc(s_.get('sp')))
+        finally:
+            cn.TYPE_RANGE.clear()
+            cn.TYPE_RANGE.update(saved)
+    r.note('narrowing casts outside the compiler: %d' % n)
